@@ -665,6 +665,12 @@ class EnvelopeSuite(Suite):
         thorough = tier == "thorough"
         cases = []
         n_clean, n_tamper, n_mal, n_sweep, n_cli = (400, 1200, 500, 5, 100) if thorough else (40, 80, 60, 1, 18)
+        for want in ("wide", "wide", "big"):           # untampered envelopes with paddings of every field width, always
+            for _ in range(400):
+                c = gen_base(rng, tier)
+                if c["padk"] == want:
+                    break
+            cases.append(c)
         for _ in range(n_clean):
             cases.append(gen_base(rng, tier))
             if rng.chance(0.4):
